@@ -570,7 +570,7 @@ def trxcon_side(ctx, r):
 		scripts = [("N %d\n" % i + "\n".join(ops) + "\n").encode() for i, ops in enumerate(cases)]
 		# (no MemorySanitizer twin here: what trxcon reports upwards after a hostile datagram is not part of
 		# the statement - only that it neither crashes nor touches memory out of bounds)
-		outputs, crashes = cbuild.run_cases(binary, scripts, timeout = 900, twin = False)
+		outputs, crashes = cbuild.run_cases(binary, scripts, timeout = 300, twin = False)
 		for (i, rc, err, rep) in crashes:
 			last = (outputs[i] or [])[-2:]
 			done = sum(1 for l in (outputs[i] or []) if l[:2] in ("r ", "d ", "k ", "t "))
